@@ -317,10 +317,21 @@ def replay(path):
         print(f"replay: obligation {rec.get('obligation')} of {prop} failed; no concrete input was found.")
         print(json.dumps(rec, indent=1, default=str)[:4000])
         return 1
+    warm = ""
+    if str(rec.get("kind", "")).startswith("verdict-depends-on-earlier-calls"):
+        # the verdict of this case changes once other cases have run in the same process: replay it after a warm-up
+        # over the generated cases of the quick tier (bounded by a time budget)
+        warm = ("import time\n"
+                "t0=time.time()\n"
+                "for i,c0 in enumerate(m.cases('quick',0)):\n"
+                "    if time.time()-t0>120: break\n"
+                "    try: m.run_case(c0)\n"
+                "    except Exception: pass\n")
     code = (
         "import json,sys,importlib,vlib\n"
         f"rec=json.load(open({path!r}))\n"
         "m=importlib.import_module(rec['module'])\n"
+        + warm +
         "r=m.run_case(rec['case'])\n"
         "from vlib.runner import foreign\n"
         "r['failures']=[f for f in r.get('failures',[]) if not foreign(rec['property'], f)]\n"
